@@ -333,7 +333,9 @@ func runC07(c *ctx) {
 			tr += ", " + del
 		}
 		tr += "|"
-		arg := []string{"$", "items", "b", "items[0]", "[items[0], b]", "nothing", "1", "\"s\""}[r.intn(8)]
+		// the argument itself may be an empty object or an empty array of the caller's document (a copy has to be made of
+		// those too: "nothing to copy" is not "nothing to protect")
+		arg := []string{"$", "items", "b", "items[0]", "[items[0], b]", "nothing", "1", "\"s\"", "e", "items[0].m", "[e, b]", "items.m", "c[1]"}[r.intn(13)]
 		var prog string
 		switch r.intn(6) {
 		case 0, 1, 2:
@@ -348,6 +350,10 @@ func runC07(c *ctx) {
 		d := fullDoc(r, false)
 		if r.chance(1, 4) {
 			d = typedVariant(d)
+		}
+		if i%40 == 7 {
+			// the whole document is an empty object / a list with an empty object in it
+			d = []interface{}{map[string]interface{}{}, map[string]interface{}{"items": []interface{}{map[string]interface{}{}, map[string]interface{}{"id": 1.0}}, "e": map[string]interface{}{}}}[r.intn(2)]
 		}
 		before := valueSexp(d)
 		c.diffEval(prog, d, "transform")
